@@ -156,6 +156,10 @@ class Prop(PropBase):
                         np.max(np.abs(au - np.asarray(y.data)))) <= 1e-4 * (sc or 1.0)))
                 except Exception as e:  # noqa
                     out["uneven_" + how] = "refused:" + err_name(e)
+        # the signal the request describes: the labels the object carries are the requested ones (the chirp is evaluated at them)
+        want_al = case["al"] if case["n"] % 2 == 0 else "center"
+        if z.freq_align != want_al or abs(float(z.center_freq.to_value(u.Hz)) - float(case["cf"])) > 1e-6 * abs(float(case["cf"])):
+            out["labels_not_requested"] = f"freq_align={z.freq_align!r} center_freq={z.center_freq} for the request {want_al!r}, {case['cf']} Hz"
         out["lazy"] = bool((type(y.data).__module__.startswith("dask")) == case["dask"])
         yd = np.asarray(y.data)
         xd = np.asarray(z.data)
@@ -294,6 +298,9 @@ class Prop(PropBase):
             lim = 1e-5 * max(1.0, math.log2(N + 1))
             if not (0 <= code.get("data_err", -1.0) <= lim):
                 return f"dedispersed data differ from ifft(fft(x)*H)[start:stop] by {code.get('data_err')} (limit {lim:.3g})"
+        if code.get("labels_not_requested"):
+            return ("the signal built for this request does not carry the requested channel frequencies, so the chirp is applied at "
+                    f"other frequencies than asked for: {code['labels_not_requested']}")
         for how in ("freq", "all"):
             if code.get("uneven_" + how) is False or (how == "freq" and str(code.get("uneven_freq", "")).startswith("refused")):
                 return (f"dedispersion of a Dask-backed copy with uneven chunks ({how}) is not the dedispersion of the same samples "
